@@ -1,6 +1,7 @@
 """C03: call_rcu() -- every callback runs exactly once, with its own rcu_head, only after a grace period covering the
 read-side sections open at ITS call_rcu() entry; default / per-thread / per-CPU helpers, concurrent enqueuers, callbacks
-re-enqueuing, helpers destroyed with callbacks still queued.
+re-enqueuing, helpers destroyed with callbacks still queued, create_all_cpu_call_rcu_data (two racing callers: the loser frees
+its helper) and free_all_cpu_call_rcu_data against a concurrent call_rcu() on that CPU.
 
 spec/CallRcu.tla (one action per shared access / blocking call of src/urcu-call-rcu-impl.h and of the wfcqueue operations
 it uses, x86-TSO; grace period abstract) is model checked per scenario: NoErr (AtMostOnce, AfterGP, RightArg, FreedOnce),
@@ -22,16 +23,22 @@ ASSUMPTIONS = [
     "grace period abstract (a blocking step waiting for the read-side sections open at its start) both in the specification and in the "
     "executed code: urcu-call-rcu-impl.h is compiled against the framework's abstract flavor; that the four real flavors implement it is C01",
     "urcu-call-rcu-impl.h is one file included by every flavor; integration runs execute it inside the real mb flavor (quick and thorough) and memb flavor "
-    "(thorough) translation units with the grace-period internals projected away; qsbr and bp integration (online/offline around rcu_barrier) is not executed",
-    "CPU selection is an environment input (model CPUs 0..1 through the redirected sched_getcpu); the possible-CPU count of the machine only sizes the pointer array",
+    "(thorough) and qsbr (quick and thorough; scenarios without call_rcu_data_free / call_rcu_before_fork by an online caller -- observation O4 -- and without "
+    "real-time helpers) translation units with the grace-period internals projected away; bp integration is not executed",
+    "CPU selection is an environment input (model CPUs 0..1 through the redirected sched_getcpu); in the scenarios with create_all_cpu_call_rcu_data / "
+    "free_all_cpu_call_rcu_data the possible-CPU array length seen by the library is the model's NCpu (1 or 2; get_possible_cpus_array_len is renamed at "
+    "preprocessing time in the driver), elsewhere the machine's value only sizes the pointer array; helper CPU affinity (sched_setaffinity) is not modelled",
     "bounds: <= 2 enqueuers, <= 3 rcu_heads (one re-enqueued from a callback), <= 2 readers, default + 1 extra helper (per-thread, per-CPU, RT or futex-woken), "
     "one call_rcu_data_free; store buffers <= 2 in TLC, 32-entry software store buffers in the executed code",
     "pthread_create is not a store-buffer drain in the VSCHED runtime (it is in the specification when model checking)",
 ]
 QUICK = ["crcu_one", "crcu_2e_s", "crcu_thr_re", "crcu_rt", "crcu_pause"]
-THOROUGH = ["crcu_2e", "crcu_cpu_s", "crcu_cpu", "crcu_late", "crcu_thr"]
+THOROUGH = ["crcu_2e", "crcu_cpu_s", "crcu_cpu", "crcu_late", "crcu_thr", "crcu_all1"]
+QUICK_CONF_ONLY = ["crcu_all2", "crcu_all", "crcu_all_w"]      # create_all / free_all: executions validated in quick, TLC on the scenario in thorough
+THOROUGH_CONF_ONLY = ("crcu_all",)      # two CPUs, three helpers: > 7.7 M states unfinished after 25 min; crcu_all1 is its exhaustively explored one-CPU form
 NEG_QUICK = [("crcu_one", ["gpfirst"], "AfterGP")]
-NEG_THOROUGH = [("crcu_one", ["nowake"], "NoLoss"), ("crcu_thr_re", ["nohandover"], "NoLoss"), ("crcu_one", ["nogp"], "AfterGP"), ("crcu_neg_nosync", [], "uaf"), ("crcu_cpu", ["norlock"], "uaf")]
+NEG_THOROUGH = [("crcu_one", ["nowake"], "NoLoss"), ("crcu_thr_re", ["nohandover"], "NoLoss"), ("crcu_one", ["nogp"], "AfterGP"), ("crcu_neg_nosync", [], "uaf"), ("crcu_cpu", ["norlock"], "uaf"),
+                ("crcu_all1", ["nofasync"], "uaf")]
 LIVE = [("crcu_live", ["EventuallyInvoked", "BarrierReturns"])]
 
 
@@ -42,13 +49,16 @@ def run(ctx):
                      "scheduling points -- the helper's temporary queue -- that the specification folds into the adjacent step)")
     cc.qsbr_finding(ctx)
     if q:
-        cc.run_property(ctx, "C03", QUICK, NEG_QUICK, [], nseeds=25, nscript=10, sc_tsos={"crcu_one": (0, 1)}, mc_workers=3, mc_timeout=900)
+        cc.run_property(ctx, "C03", QUICK + QUICK_CONF_ONLY, NEG_QUICK, [], nseeds=25, nscript=10, sc_tsos={"crcu_one": (0, 1)}, mc_workers=3, mc_timeout=900,
+                        conf_only=tuple(QUICK_CONF_ONLY))
         cc.real_flavor(ctx, "mb", ["crcu_one"], nseeds=15)
+        cc.real_flavor(ctx, "qsbr", ["crcu_one"], nseeds=10)
     else:
         cc.real_flavor(ctx, "mb", QUICK + ["crcu_2e", "crcu_cpu", "crcu_late"], nseeds=150, tsos=(0, 1))
         cc.real_flavor(ctx, "memb", ["crcu_one", "crcu_2e_s", "crcu_rt"], nseeds=100, tsos=(1,))
-        cc.run_property(ctx, "C03", QUICK + THOROUGH, NEG_QUICK + NEG_THOROUGH, LIVE, nseeds=500, nscript=60, sc_tsos={s: (0, 1) for s in QUICK + THOROUGH},
-                        mc_workers=4, mc_timeout=3000, coverage=True)
+        cc.real_flavor(ctx, "qsbr", ["crcu_one", "crcu_2e_s", "crcu_all2"], nseeds=100, tsos=(0, 1))
+        cc.run_property(ctx, "C03", QUICK + QUICK_CONF_ONLY + THOROUGH, NEG_QUICK + NEG_THOROUGH, LIVE, nseeds=500, nscript=60, sc_tsos={s: (0, 1) for s in QUICK + QUICK_CONF_ONLY + THOROUGH},
+                        mc_workers=4, mc_timeout=3000, coverage=True, conf_only=THOROUGH_CONF_ONLY)
 
 
 def replay(ctx, path):
